@@ -54,7 +54,8 @@ CHECKS = {
         design='6/C02'),
     'C19': dict(
         technique='TLC exhaustive enumeration of Accept headers (Negotiation.tla: preference order, Match, encoder/decoder sets) '
-                  'replayed on the real codec in several spellings + TLC trace validation of random headers from a wider grammar',
+                  'replayed on the real codec in several spellings + TLC trace validation of random headers from a wider grammar; '
+                  'kinds as glob text, content type x Accept through layout.Request and the REST route (NegotiationRequest.tla)',
         text='Negotiation.tla defines the preference order (descending q, ties in header order), the pattern match and the set of '
              'admissible encoders/decoders; every header TLC enumerates is rendered in several spellings and run through '
              'Encoding.parse, get_encoder, get_decoder, Generic.receive/respond; random headers from a wider grammar are judged '
@@ -65,7 +66,8 @@ CHECKS = {
     'C15': dict(
         technique='TLC exhaustive over query/entry schema arrangements (Entry.tla requirement, MatchEntryImpl.tla as-is scan and cast) '
                   'and tabular view histories (Tabular.tla), every exported vector replayed on the real Reader / drivers / Dense / '
-                  'Frame / Slicer; random requests validated by TraceEntry.tla',
+                  'Frame / Slicer; served payloads that are row selections / labelled frames (EntrySelect.tla); random requests '
+                  'validated by TraceEntry.tla',
         text='Entry.tla defines Aligned (columns by name in query order, values cast to the declared kind, refusal when a column is '
              'missing); MatchEntryImpl.tla transcribes the zip_longest scan and _cast and is checked to refine it; every arrangement '
              'within the constants is served by the real Reader.__call__, RowDriver and TableDriver and compared; Tabular.tla states '
@@ -114,7 +116,8 @@ CHECKS = {
     'C12': dict(
         technique='TLC enumeration of evaluated / stacked pipelines with leak-freedom lemmas on the denotation '
                   '(CompositionEvalMC.tla over Composition.tla); every expression composed with the real TrainTestScore / CrossVal / '
-                  'HoldOut / FullStack over a symbolic splitter and compared term by term with TLC',
+                  'HoldOut / FullStack over a symbolic splitter and compared term by term with TLC; Splitter.tla / Reducer.tla replayed '
+                  'on the real default folding actor and default reducers',
         text='The fold parts of a symbolic splitter (port 2i train, 2i+1 test) make provenance syntactic: TLC checks EvalLeakFree / '
              'StackLeakFree on the denotation and exports the exact (true, predicted) terms reaching the metric, the stacked train set '
              'and the reduced apply output; the real compositions are compiled, interpreted and must produce these terms, with one '
@@ -168,7 +171,8 @@ CHECKS = {
     'C16': dict(
         technique='TLC exhaustive over the serving pipeline model (Serving.tla: all interleavings of 5-7 requests over executors, '
                   'FIFO queues and forked workers, with failing requests; safety + liveness) + the real Engine under seeded concurrent '
-                  'batches judged per response, and hook-emitted task life-cycle logs validated by TraceServing.tla',
+                  'batches judged per response, hook-emitted task life-cycle logs validated by TraceServing.tla, and the REST gateway in '
+                  'front of it (Gateway.tla; event logs of the real Starlette route validated by TraceGateway.tla)',
         text='Serving.tla checks NoCross, AtMostOnce, FailAlone, UniqueIds and <>AllAnswered over every interleaving within the '
              'constants. The real runtime Engine (registry with three generations, dispatch, executors, spawned pools, forked workers, '
              'pyfunc) serves batches of 1..64 concurrent requests over pool sizes 1..4 with unknown-application / unsupported-encoding / '
@@ -211,7 +215,8 @@ CHECKS = {
     'C14': dict(
         technique='TLC exhaustive decision of hint safety over ALL databases within a bound (Hints.tla / HintsMC.tla over RelAlg.tla, '
                   'FactorsImpl.tla as-is factorisation) + hints recorded from the real parser (generate_table override) validated by '
-                  'TraceHints.tla and enforced on SQLite against the hint-ignoring run',
+                  'TraceHints.tla and enforced on SQLite against the hint-ignoring run; twin-statement histories through one lazy '
+                  'reader (LazyReads.tla)',
         text='Hints.tla defines ColumnsComplete, Scoped and Safe (Eval(stmt, db) = Eval(stmt, Restrict(db, H)) for every db of the '
              'universe); HintsMC.tla enumerates statement families x all small databases for the transcribed factorisation; the hints '
              'the real parser offers are recorded through the public generate_table extension point, judged by TLC and honoured on '
